@@ -854,6 +854,26 @@ func ruleGLOB3(w *World) []Ob {
 			}
 			kinds := map[string]bool{}
 			allInstrs(f, func(in ssa.Instruction) {
+				if st, ok := in.(*ssa.Store); ok {
+					// n.brnch = branch{} / n.brnch.value = "" / n.brnch.path = ""
+					if fa, ok := st.Addr.(*ssa.FieldAddr); ok {
+						_, fld, _ := fieldOf(fa)
+						zero := false
+						if c, isC := st.Val.(*ssa.Const); isC && (c.Value == nil || c.Value.ExactString() == `""`) {
+							zero = true
+						}
+						if zero && sameVar(baseObject(fa), f.Params[0]) {
+							switch fld {
+							case "brnch":
+								kinds["Branch"], kinds["Path"] = true, true
+							case "value":
+								kinds["Branch"] = true
+							case "path":
+								kinds["Path"] = true
+							}
+						}
+					}
+				}
 				c, ok := in.(*ssa.Call)
 				if !ok || c.Common().StaticCallee() == nil || recvTypeName(c.Common().StaticCallee()) != "Node" {
 					return
